@@ -1003,6 +1003,15 @@ fn leaves() -> Vec<(&'static str, Val)> {
         ("U1", Eu(1)),
         ("U32", Eu(32)),
         ("UMAX", Eu(u32::MAX)),
+        // sizeof of scalar types and of (const-qualified) scalar operands is a uint constant
+        ("sizeof(int)", Un(4)),
+        ("sizeof(I1)", Un(4)),
+        ("sizeof(GMAX)", Un(4)),
+        ("sizeof(const float)", Un(4)),
+        ("sizeof(double)", Un(8)),
+        ("sizeof(half)", Un(2)),
+        ("sizeof(E1)", Un(4)),
+        ("sizeof(true)", Un(4)),
     ]
 }
 
